@@ -4,6 +4,7 @@ import (
 	"encoding/binary"
 	"fmt"
 	"net"
+	"sort"
 	"time"
 
 	"github.com/cbeuw/Cloak/internal/common"
@@ -24,6 +25,9 @@ type SessParams struct {
 	// LateConns: connections 1..NConn-1 are added to the accepting side by
 	// separate tasks while traffic flows (as dispatchConnection does)
 	LateConns bool `json:"late_conns,omitempty"`
+	// LateAfter[i-1]: connection i joins the accepting side only once the
+	// accepting side's workload has read that many bytes in total (0: at once)
+	LateAfter []int `json:"late_after,omitempty"`
 	// per-link delivery weights (slow connections); empty = all 1
 	Weights []float64 `json:"weights,omitempty"`
 	Partial bool      `json:"partial,omitempty"`
@@ -42,6 +46,36 @@ type SessWorld struct {
 	Key   [32]byte
 	Links []*simnet.Link
 	P     SessParams
+	late  []lateConn
+}
+
+type lateConn struct {
+	after int
+	conn  net.Conn
+	go_   chan struct{}
+}
+
+// Progress tells the world how many bytes the accepting side has read so far;
+// connections whose threshold is reached join the accepting session, each
+// from its own task (as dispatchConnection does). A connection also joins
+// when traffic is stuck without it (its task wakes up after a virtual
+// millisecond, and virtual time only passes when nothing else can run), so a
+// late connection is never a missing one.
+func (sw *SessWorld) Progress(total int) {
+	for len(sw.late) > 0 && sw.late[0].after <= total {
+		close(sw.late[0].go_)
+		sw.late = sw.late[1:]
+	}
+}
+
+func (sw *SessWorld) startAdder(lc lateConn, i int) {
+	simsync.Go("h:adder", func() {
+		select {
+		case <-lc.go_:
+		case <-time.After(time.Duration(i+1) * time.Millisecond):
+		}
+		sw.S.AddConnection(lc.conn)
+	})
 }
 
 var methodNames = map[byte]string{0: "plain", 1: "aes-256-gcm", 2: "chacha20-poly1305", 3: "aes-128-gcm"}
@@ -87,11 +121,19 @@ func NewSessWorld(c *Ctx, p SessParams, cValve, sValve mux.Valve) *SessWorld {
 	for i := 1; i < n; i++ {
 		e := sEnds[i]
 		if p.LateConns {
-			simsync.Go("h:adder", func() { sw.S.AddConnection(e) })
+			after := 0
+			if i-1 < len(p.LateAfter) {
+				after = p.LateAfter[i-1]
+			}
+			lc := lateConn{after, e, make(chan struct{})}
+			sw.late = append(sw.late, lc)
+			sw.startAdder(lc, i)
 		} else {
 			sw.S.AddConnection(e)
 		}
 	}
+	sort.SliceStable(sw.late, func(i, j int) bool { return sw.late[i].after < sw.late[j].after })
+	sw.Progress(0)
 	return sw
 }
 
